@@ -173,6 +173,10 @@ impl FileSystem for MemoryFS {
     }
 
     fn create_dir(&self, path: &str) -> VfsResult<()> {
+        if path.is_empty() {
+            // the root always exists
+            return Err(VfsErrorKind::DirectoryExists.into());
+        }
         self.ensure_has_parent(path)?;
         #[cfg(feature = "verif-hooks")]
         crate::verif_hooks::yield_point("memory::create_dir");
